@@ -333,3 +333,63 @@ fn c19_flex_bool() {
         }
     }
 }
+
+/// independent UTF-8 reference (RFC 3629 table): index of the first byte of the first ill-formed sequence in s[..n], or n
+fn utf8_valid_prefix(s: &[u8], n: usize, max: usize) -> usize {
+    let mut i = 0usize;
+    let mut k = 0;
+    let mut bad = n;
+    let mut stop = false;
+    while k < max {
+        if !stop && i < n {
+            let b = s[i];
+            let (need, lo, hi): (usize, u8, u8) = if b < 0x80 { (0, 0, 0) }
+                else if b >= 0xC2 && b <= 0xDF { (1, 0x80, 0xBF) }
+                else if b == 0xE0 { (2, 0xA0, 0xBF) }
+                else if (b >= 0xE1 && b <= 0xEC) || b == 0xEE || b == 0xEF { (2, 0x80, 0xBF) }
+                else if b == 0xED { (2, 0x80, 0x9F) }
+                else if b == 0xF0 { (3, 0x90, 0xBF) }
+                else if b >= 0xF1 && b <= 0xF3 { (3, 0x80, 0xBF) }
+                else if b == 0xF4 { (3, 0x80, 0x8F) }
+                else { (9, 0, 0) };
+            if need == 9 || i + need >= n {
+                // invalid lead byte, or the sequence is cut off by the end of the string
+                bad = i;
+                stop = true;
+            }
+            if !stop {
+                let mut ok = true;
+                if need >= 1 { let c = s[i + 1]; if c < lo || c > hi { ok = false; } }
+                if need >= 2 { let c = s[i + 2]; if c < 0x80 || c > 0xBF { ok = false; } }
+                if need >= 3 { let c = s[i + 3]; if c < 0x80 || c > 0xBF { ok = false; } }
+                if !ok { bad = i; stop = true; } else { i += need + 1; }
+            }
+        }
+        k += 1;
+    }
+    bad
+}
+
+/// FlatString<u8>: C02 acceptance == (len <= capacity and the first len bytes are well-formed UTF-8, whatever follows them);
+/// C19: the error position lies in the first ill-formed sequence
+#[kani::proof]
+#[kani::unwind(8)]
+fn c02_string_u8() {
+    const N: usize = 4; // BOUNDED: length byte + 3 data bytes (from_utf8 is expensive in CBMC)
+    let (len, off) = any_len_off(N, 1);
+    let b = sym_slice(len, 1, off, N);
+    let r = FlatString::<u8>::validate(b);
+    if len < 1 { assert!(matches!(r, Err(ref e) if e.kind == ErrorKind::InsufficientSize), "C02,C06: short input must be InsufficientSize"); return; }
+    let n = b[0] as usize;
+    if n > len - 1 { assert!(matches!(r, Err(ref e) if e.kind == ErrorKind::InsufficientSize), "C02,C06: len > capacity must be InsufficientSize"); return; }
+    let bad = utf8_valid_prefix(&b[1..], n, N);
+    assert!(r.is_ok() == (bad == n), "C02: FlatString acceptance differs from the UTF-8 well-formedness of its first len bytes");
+    if let Err(e) = r {
+        assert!(e.kind == ErrorKind::InvalidData, "C02: wrong error kind for malformed UTF-8");
+        assert!(e.pos >= 1 + bad && e.pos <= 1 + bad + 3 && e.pos < 1 + n, "C19: error position is not inside the first ill-formed UTF-8 sequence");
+    } else {
+        let v = FlatString::<u8>::from_bytes(b).unwrap();
+        assert!(v.len() == n && v.len() <= v.capacity(), "C02: len/capacity of the accepted view differ from the reference");
+        assert!(v.as_str().len() == n, "C02: as_str() differs from the reference decoding");
+    }
+}
